@@ -555,6 +555,12 @@ def likelihood_copies(idx: ProgramIndex, rep: Report):
                 continue
             if isinstance(r, ast.Call) and ((chain(r.func) or "").split(".")[-1] == "deepcopy" or is_super_call(r, "get_fantasy_likelihood")):
                 continue
+            # a container of members: a new container built (starred) from a list every element of which is the fantasy likelihood of a member
+            if isinstance(r, ast.Call) and chain(r.func) in ("%s.__class__" % sn, "type(%s)" % sn) and len(r.args) == 1 and isinstance(r.args[0], ast.Starred) and isinstance(r.args[0].value, ast.Name):
+                lst = r.args[0].value.id
+                defs = [a.value for a in ast.walk(fi.node) if isinstance(a, ast.Assign) and any(isinstance(t, ast.Name) and t.id == lst for t in a.targets)]
+                if defs and all(isinstance(d, ast.ListComp) and isinstance(d.elt, ast.Call) and isinstance(d.elt.func, ast.Attribute) and d.elt.func.attr == "get_fantasy_likelihood" for d in defs):
+                    continue
             ok = False
         rep.add("C04-4", "%s:%s" % (fi.module.name, fi.qualname), fi.where, ok and bool(rets), "returns a deep copy (or delegates to an implementation that does)" if ok else
                 "get_fantasy_likelihood returns `%s`: the fantasy model would share (and later mutate) the source's likelihood" % ", ".join(src(r) for r in rets), {})
